@@ -62,6 +62,12 @@ def gen_case(rng, i):
         has_header = (i % 3) != 2
         a_names = NAMES_A[:wa] if has_header else None
         b_names = (NAMES_B[:len(B[0])] if has_header else None) if join else None
+        if has_header and rng.random() < 0.15:
+            # duplicate column names are legal in CSV headers, column-name lists and dataframes (sqlite cannot hold them: that front-end is skipped)
+            for names in (a_names, b_names):
+                if names and len(names) > 1 and rng.random() < 0.7:
+                    i1, i2 = rng.sample(range(len(names)), 2)
+                    names[i2] = names[i1]
         g = gq.G(rng, A, a_names, B, b_names)
         if kind == 'update':
             q = g.gen_update({'where'} & feats | ({'join'} if join else set()))
@@ -325,8 +331,8 @@ def run_shard(spec, res):
                 err = '%s: %s' % (type(e).__name__, str(e)[:100])
             cmp('pandas', rows, hdr, err)
 
-            # 5. sqlite (always has column names)
-            if has_header:
+            # 5. sqlite (always has column names, all distinct)
+            if has_header and len(set(an)) == len(an) and (bn is None or len(set(bn)) == len(bn)):
                 db = os.path.join(d, 'db_%d.sqlite' % n)
                 conn = sqlite3.connect(db)
                 conn.execute('CREATE TABLE t (%s)' % ', '.join('%s TEXT' % x for x in an))
